@@ -36,7 +36,7 @@ func emptiness(v interface{}) string {
 
 func c07(r *mon.Run) {
 	r.Rule = "exhaustive: every ordered pair of a 24-value universe (all JSON types, every emptiness class, one level of nesting) x the 8 binary operators, operands supplied as literals, as document fields and mixed; ! and filter conditions [?@] / [?a] over the universe; short-circuit probes (x || E, x && E for every x and every error kind E: the right operand must be evaluated exactly when needed), also as filter conditions evaluated per element; " +
-		"every operator tree of depth <= 2 over 6 representative operands (depth 3 sampled in thorough); deep equality over every ordered pair of a 56-value universe of small nested arrays and objects (different key sets of equal size, null members, element order, nesting), as ==, !=, inside a filter condition and through contains(); !, ||, && and filter conditions over the same universe given as Go pointers (*T, **T, ***T, nil; in a map, as list elements, as the document): a pointer is as true-like as its pointee; seeded random nestings inside filter conditions. Oracle: ref truth table / deep equality / numeric ordering. Non-trivial = distinct (expression, document); the (operator, left type, right type, emptiness) matrix is reported."
+		"every tree of exactly three binary operators over {|| && == <} and 5 field operands (200 000 trees, one in seven as a filter condition); ! || && == != < and type() applied to what a pipe hands on, for every universe value; every operator tree of depth <= 2 over 6 representative operands (depth 3 sampled in thorough); deep equality over every ordered pair of a 56-value universe of small nested arrays and objects (different key sets of equal size, null members, element order, nesting), as ==, !=, inside a filter condition and through contains(); !, ||, && and filter conditions over the same universe given as Go pointers (*T, **T, ***T, nil; in a map, as list elements, as the document): a pointer is as true-like as its pointee; seeded random nestings inside filter conditions. Oracle: ref truth table / deep equality / numeric ordering. Non-trivial = distinct (expression, document); the (operator, left type, right type, emptiness) matrix is reported."
 	r.Exhaustive = true
 	r.Floor = 3000
 	r.Assumptions = []string{"truth definition, deep equality and ordering rules as stated in C07 (ref/value.go: Falsy, DeepEq)"}
@@ -246,6 +246,85 @@ func c07(r *mon.Run) {
 			}
 			t.Nontrivial("sc:" + expr + ref.Canon(doc))
 		}}
+	// every tree with exactly three binary operators (all five shapes) over {|| && == <} and five field operands of
+	// one document (true-like string, empty string, 1, 2, null): which operand an || / && chain returns depends on
+	// every operator below it, so a short-cut taken for one particular nesting shows only there
+	ops3 := []string{"||", "&&", "==", "<"}
+	flds := []string{"t", "e", "one", "two", "z"}
+	tdoc3 := docs.J(`{"t":"x","e":"","one":1,"two":2,"z":null,"rows":[{"t":"x","e":"","one":1,"two":2,"z":null,"id":1},{"t":"","e":"y","one":2,"two":1,"z":0,"id":2},{"t":null,"e":[],"one":1,"two":1,"z":false,"id":3}]}`)
+	nOps, nF := len(ops3), len(flds)
+	n3 := 5 * nOps * nOps * nOps * nF * nF * nF * nF
+	three := mon.Workload{Name: "three-operator-trees", N: n3, Batch: 5000,
+		Do: func(i int, t *mon.Tally) {
+			k := i
+			shape := k % 5
+			k /= 5
+			var op [3]string
+			for q := range op {
+				op[q] = ops3[k%nOps]
+				k /= nOps
+			}
+			var f [4]*gen.Expr
+			for q := range f {
+				f[q] = gen.Field(flds[k%nF])
+				k /= nF
+			}
+			var tree *gen.Expr
+			switch shape {
+			case 0:
+				tree = binExpr(op[2], binExpr(op[1], binExpr(op[0], f[0], f[1]), f[2]), f[3])
+			case 1:
+				tree = binExpr(op[2], binExpr(op[1], f[0], gen.Paren(binExpr(op[0], f[1], f[2]))), f[3])
+			case 2:
+				tree = binExpr(op[2], binExpr(op[0], f[0], f[1]), gen.Paren(binExpr(op[1], f[2], f[3])))
+			case 3:
+				tree = binExpr(op[2], f[0], gen.Paren(binExpr(op[1], gen.Paren(binExpr(op[0], f[1], f[2])), f[3])))
+			default:
+				tree = binExpr(op[2], f[0], gen.Paren(binExpr(op[1], f[1], gen.Paren(binExpr(op[0], f[2], f[3])))))
+			}
+			if i%7 == 3 { // the same tree as a filter condition, per element
+				tree = gen.Chain(gen.Field("rows"), gen.StFilter(tree), gen.StField("id"))
+			}
+			expr := gen.Spell(tree)
+			cx := &caseCtx{r, t, "three-operator-trees", i}
+			cx.runOne(tree, expr, tdoc3)
+			t.NontrivialDistinct(1)
+		}}
+	// the operators applied to what a pipe hands on, for every universe value (null in particular: a pipe does not
+	// end where its left side is null)
+	pforms2 := []func() *gen.Expr{
+		func() *gen.Expr { return gen.Not(gen.Current()) },
+		func() *gen.Expr { return gen.Or(gen.Current(), gen.Raw("default")) },
+		func() *gen.Expr { return gen.And(gen.Current(), gen.Raw("then")) },
+		func() *gen.Expr { return gen.Cmp("==", gen.Current(), gen.LitJSON("null")) },
+		func() *gen.Expr { return gen.Cmp("!=", gen.Current(), gen.LitJSON("null")) },
+		func() *gen.Expr { return gen.Cmp("<", gen.Current(), gen.LitJSON("1")) },
+		func() *gen.Expr { return gen.MultiList(gen.Current(), gen.Not(gen.Current())) },
+		func() *gen.Expr { return gen.Not(gen.Not(gen.Current())) },
+		func() *gen.Expr { return gen.Func("type", gen.Current()) },
+		func() *gen.Expr { return gen.LitJSON("7") },
+	}
+	pipew := mon.Workload{Name: "operators-after-a-pipe", N: n * len(pforms2) * 4,
+		Do: func(i int, t *mon.Tally) {
+			x := i / 4 / len(pforms2)
+			B := pforms2[i/4%len(pforms2)]()
+			var tree *gen.Expr
+			var doc interface{} = map[string]interface{}{"a": us[x], "rows": []interface{}{map[string]interface{}{"v": us[x], "id": float64(1)}, map[string]interface{}{"v": "set", "id": float64(2)}, map[string]interface{}{"id": float64(3)}}}
+			switch i % 4 {
+			case 0:
+				tree = gen.Pipe(gen.Field("a"), B)
+			case 1:
+				tree = gen.Pipe(gen.Pipe(gen.Field("a"), gen.Current()), B)
+			case 2:
+				tree = gen.Chain(gen.Field("rows"), gen.StFilter(gen.Paren(gen.Pipe(gen.Field("v"), B))), gen.StField("id"))
+			default:
+				tree = gen.Pipe(gen.Chain(gen.Field("missing"), gen.StField("deeper")), B)
+			}
+			expr := gen.Spell(tree)
+			cx := &caseCtx{r, t, "operators-after-a-pipe", i}
+			cx.runBoth(tree, expr, doc)
+			t.Nontrivial("pipe:" + expr + ref.Canon(doc))
+		}}
 	// operator trees over representative operands
 	reps := gen.List(gen.LitJSON("null"), gen.LitJSON("0"), gen.LitJSON(`""`), gen.LitJSON("[null]"), gen.Field("a"), gen.Field("b"))
 	var bin []func(a, b *gen.Expr) *gen.Expr
@@ -350,7 +429,7 @@ func c07(r *mon.Run) {
 			cx.runOne(tree, gen.Spell(tree), doc)
 			t.NontrivialDistinct(1)
 		}}
-	ws := []mon.Workload{pairs, unary, ptrs, sc, scf, trees, rnd, eqw, numw}
+	ws := []mon.Workload{pairs, unary, ptrs, pipew, sc, scf, trees, three, rnd, eqw, numw}
 	if r.Tier == "thorough" {
 		d2m := gen.Materialize(gen.Union(gen.Map(d1, un...), gen.Product(reps, d1, bin...)))
 		d3 := gen.Product(d2m, d1, bin...)
